@@ -383,7 +383,7 @@ def validate(records, timeout=1800):
 MC = {"quick": [("LiveRange_Quick.cfg", "ok", None)],
       "thorough": [("LiveRange_Quick.cfg", "ok", None), ("LiveRange_MC.cfg", "ok", None)]}
 NEGATIVE = [("LiveRange_NoPre.cfg", "invariant", "CoversUse"), ("LiveRange_ShortenLast.cfg", "invariant", "CoversUse"),
-            ("LiveRange_OwnTime.cfg", "invariant", "CoversUse"), ("LiveRange_OutNotExt.cfg", "invariant", "CoversUse"),
+            ("LiveRange_OwnTime.cfg", "invariant", "CoversUse"), ("LiveRange_OutNotExt.cfg", "invariant", "CoversUse"), ("LiveRange_VarNotExt.cfg", "invariant", "CoversUse"),
             ("LiveRange_AsIs.cfg", "invariant", "FuseSafe")]
 ACTIONS = ["CpuPass", "EnterNpu", "FuseInPlace", "NoFuse", "OwnTimeOp", "CascadeOp", "NoBuffer", "PlainBuffer",
            "PreBufferedBuffer", "SecondBuffer", "LeaveNpu", "Finish"]
